@@ -286,6 +286,28 @@ def keys(ctx, rep, rule):
                 else:
                     return l
             return None
+        def _producing_calls(op):
+            """Call blocks whose result reaches this operand through plain moves / copies."""
+            pl = op.get("move") or op.get("copy")
+            seen_, work, out_ = set(), [pl["l"]] if pl else [], []
+            while work:
+                l = work.pop()
+                if l in seen_ or len(seen_) > 12:
+                    continue
+                seen_.add(l)
+                for blk_ in body.live_blocks():
+                    for st_ in blk_.stmts:
+                        if st_["k"] == "assign" and st_["place"]["l"] == l and not st_["place"]["p"] and st_["rv"]["k"] in ("use", "cast"):
+                            q = st_["rv"]["op"].get("move") or st_["rv"]["op"].get("copy")
+                            if q is not None and not [e for e in q["p"] if e != "deref"]:
+                                work.append(q["l"])
+                        elif st_["k"] == "assign" and st_["place"]["l"] == l and not st_["place"]["p"] and st_["rv"]["k"] == "ref" \
+                                and st_["rv"]["place"]["p"] == ["deref"]:
+                            work.append(st_["rv"]["place"]["l"])
+                    t_ = blk_.term
+                    if t_ and t_["k"] == "call" and t_["dest"]["l"] == l and not t_["dest"]["p"]:
+                        out_.append(blk_)
+            return out_
         if "auth" in roles and "priv" in roles:
             ra, rp_ = _ref_root(roles["auth"][0].term["args"][0]), _ref_root(roles["priv"][0].term["args"][0])
             rep.check(rule, fn + "|separate digest objects", ra is not None and rp_ is not None and ra != rp_, "auth and privacy keys use their own AuthKey objects",
@@ -303,7 +325,7 @@ def keys(ctx, rep, rule):
             inst_ = [b for b in body.calls() if (callee_path(b.term) or "").endswith("SnmpPriv>::as_localized")]
             oks2 = [b_ for b_ in flow.blocks_assigning_return(body, lambda rv: rv["k"] == "agg" and rv.get("vname") == "Ok") if b_ in blocks_]
             cut2 = {(b.idx, s_) for b in inst_ for s_ in b.succs()}
-            pth = cells.path_within(body, blocks_, oks2, cut2) if oks2 else None
+            pth = (sorted(cells.variant_reach(body, cut=frozenset(cut2), within=blocks_) & set(oks2)) or None) if oks2 else None
             rep.check(rule, fn + "|privacy key always localised", pth is None, "has_priv() implies as_localized(..) before Ok",
                       "with a privacy algorithm configured %s can succeed without deriving the privacy key (blocks %s): the cipher keeps its all-zero "
                       "default key" % (fn.split("::")[-1], pth), body.loc(), obligation=True)
@@ -314,6 +336,19 @@ def keys(ctx, rep, rule):
             rep.check(rule, fn + "|cipher", ok, "PrivKey::new(priv_alg)", "cipher object is %s" % flow.fmt(a[0]), body.loc(b.term["line"]), obligation=True)
             rep.check(rule, fn + "|cipher-key", _is_call(a[1], "::get_key") and flow.mentions(a[1], lambda s: _is_call(s, "AuthKey::new")),
                       "pk.as_localized(pk_auth.get_key())", "cipher key is %s" % flow.fmt(a[1]), body.loc(b.term["line"]), obligation=True)
+            # ... and it is read from the object that localised the privacy secret, never from the one that holds the
+            # authentication key (equal secrets do not make equal keys: the key-type bits of the two algorithms differ)
+            if "auth" in roles and "priv" in roles:
+                ra2, rp2 = _ref_root(roles["auth"][0].term["args"][0]), _ref_root(roles["priv"][0].term["args"][0])
+                for g in _producing_calls(b.term["args"][1]):
+                    if not (callee_path(g.term) or "").endswith("::get_key") or not g.term["args"]:
+                        continue
+                    rr = _ref_root(g.term["args"][0])
+                    if rr is not None and ra2 is not None and rr == ra2 and rr != rp2:
+                        rep.violation(rule, fn + "|cipher-key source", "the cipher key is read from the authentication key object (localised from auth_key with the "
+                                      "auth key type), not from the privacy secret's own localisation", body.loc(g.term["line"]), obligation=True)
+                    elif rr is not None and rr == rp2:
+                        rep.ok(rule, fn + "|cipher-key source", "get_key() of the object that localised priv_key", body.loc(g.term["line"]))
         if not loc:
             rep.missing(rule, fn + ": pk.as_localized(..)")
         if fn.endswith("::set_keys"):
